@@ -1106,8 +1106,30 @@ def run_witness(binpath, w):
         else:
             return {"error": "unknown witness kind %s" % kind, "reproduced": False}
         try:
-            p = subprocess.run(cmd, capture_output=True, text=True, timeout=w.get("timeout", 20),
-                               input=w.get("stdin", stdin), cwd=tmpdir)
+            if w.get("stdin_open"):
+                # standard input is a pipe that stays open and never delivers anything: a program that reads it blocks
+                fo, fe = open(os.path.join(tmpdir, "so.txt"), "w+"), open(os.path.join(tmpdir, "se.txt"), "w+")
+                pp = subprocess.Popen(cmd, stdin=subprocess.PIPE, stdout=fo, stderr=fe, cwd=tmpdir)
+                try:
+                    pp.wait(timeout=w.get("timeout", 20))
+                    timed_out = False
+                except subprocess.TimeoutExpired:
+                    pp.kill()
+                    pp.wait()
+                    timed_out = True
+                try:
+                    pp.stdin.close()
+                except Exception:
+                    pass
+                fo.seek(0), fe.seek(0)
+
+                class _P:
+                    pass
+                p = _P()
+                p.returncode, p.stdout, p.stderr = ("timeout" if timed_out else pp.returncode), fo.read(), fe.read()
+            else:
+                p = subprocess.run(cmd, capture_output=True, text=True, timeout=w.get("timeout", 20),
+                                   input=w.get("stdin", stdin), cwd=tmpdir)
             rc, out, err = p.returncode, p.stdout, p.stderr
         except subprocess.TimeoutExpired as e:
             rc, out, err = "timeout", (e.stdout or b"").decode("utf-8", "replace") if isinstance(e.stdout, bytes) else (e.stdout or ""), ""
